@@ -777,7 +777,44 @@ func (r *Run) isParam(f *prog.FuncInfo, e ast.Expr, idx int) bool {
 	if idx >= sig.Params().Len() {
 		return false
 	}
-	return sig.Params().At(idx) == obj
+	if sig.Params().At(idx) != obj {
+		return false
+	}
+	// a parameter that the function assigns to no longer stands for the caller's argument
+	return !r.paramReassigned(f, obj)
+}
+
+// paramReassigned: the function body assigns to, increments or takes the address of the parameter.
+func (r *Run) paramReassigned(f *prog.FuncInfo, obj types.Object) bool {
+	if f.Decl == nil || f.Decl.Body == nil {
+		return false
+	}
+	info := f.Pkg.TypesInfo
+	hit := false
+	is := func(e ast.Expr) bool {
+		id, ok := ast.Unparen(e).(*ast.Ident)
+		return ok && info.Uses[id] == obj
+	}
+	ast.Inspect(f.Decl.Body, func(n ast.Node) bool {
+		switch x := n.(type) {
+		case *ast.AssignStmt:
+			for _, l := range x.Lhs {
+				if is(l) {
+					hit = true
+				}
+			}
+		case *ast.IncDecStmt:
+			if is(x.X) {
+				hit = true
+			}
+		case *ast.UnaryExpr:
+			if x.Op == token.AND && is(x.X) {
+				hit = true
+			}
+		}
+		return !hit
+	})
+	return hit
 }
 
 // guardedAfter is guarded() with the additional requirement that the atoms listed from
